@@ -333,7 +333,38 @@ func (c *Ctx) c12Scripts() error {
 	return nil
 }
 
+// c12TypeGainsFields: a struct type declared without fields and declared again with fields (a later Eval on the same
+// VM): instances made while it was empty do not share storage with the type - a store through one of them reaches
+// neither the other instances nor the instances made afterwards
+func (c *Ctx) c12TypeGainsFields() {
+	vm := goat.New()
+	var out bytes.Buffer
+	vm = goat.New(goat.WithStdout(&out))
+	steps := []string{
+		"type Game struct {\n}\na := &Game{}\nb := &Game{}\n",
+		"type Game struct {\n\tScore int\n\tName string\n\tRatio float64\n\tTags []string\n}\nfunc (g *Game) Set(n int) { g.Score = n }\n",
+		"a.Score = 99\na.Name = \"old\"\na.Ratio = 2.5\na.Tags = append(a.Tags, \"x\")\nb.Set(5)\n",
+		"c := &Game{}\nd := &Game{Score: 1}\nprintln(c.Score, c.Name == \"\", c.Ratio, len(c.Tags), d.Score, d.Name == \"\")\nc.Score = 3\ne := &Game{}\nprintln(e.Score, d.Score)\n",
+	}
+	for i, st := range steps {
+		if i == 3 {
+			if e := try(func() { vm.Get("main.b").SetAttr("Score", goat.Int(6)) }); e != nil {
+				_ = e // (an old instance may refuse the store)
+			}
+		}
+		if _, err := vm.Eval(fstest.MapFS{}, "main", st); err != nil && i != 2 {
+			c.Rep.Violate(Violation{Kind: "oracle", Cut: "type-gains-fields", Input: strings.Join(steps[:i+1], "// next Eval\n"), Impl: err.Error(), Oracle: "evaluates"})
+			return
+		}
+	}
+	c.Rep.Oracle["type-gains-fields"]++
+	if got, want := out.String(), "0 true 0 0 1 true\n0 1\n"; got != want {
+		c.Rep.Violate(Violation{Kind: "oracle", Cut: "type-gains-fields", Input: strings.Join(steps, "// next Eval\n"), Impl: got, Oracle: want})
+	}
+}
+
 func runC12(c *Ctx) error {
+	c.c12TypeGainsFields()
 	// handwritten programs (shapes that once slipped through), run by the Go toolchain
 	if err := c.runCorpus("C12-programs"); err != nil {
 		return err
